@@ -1,5 +1,6 @@
 import ScrutModel.Model.Glob
 import ScrutModel.Model.RegexWrap
+import ScrutModel.Model.RegexCleanup
 import Driver.Util
 /-! `glob`, `cglob`, `globl`, `rx`, `rxl` ops: the pattern kinds of expectations (C04).
 
@@ -12,6 +13,8 @@ import Driver.Util
 * `rx <polish> <alphabet> <maxlen> <nl>` `regexRuleMatches` over the enumeration; `rxl <polish> <line>` one line.
   Polish notation of the AST: `a`..`z` literal, `.` any, `e` empty, `;xy` seq, `|xy` alt, `*x` star,
   `(x` group, `^`, `$`.
+* `rxclean <hex>[,<hex>…]` the expression(s) after the three clean-up passes of `RegexRule::make`
+  (`regexClean`), hex, comma separated.
 All text fields are hex of UTF-8; invalid UTF-8 is rejected (`bad-op`): decoding is not modelled. -/
 open Scrut
 namespace Driver.RulesOps
@@ -68,6 +71,14 @@ def opGlobLine (args : List String) : String :=
         | none => "fuel" | some b => (bit b).toString
       s!"g={bit (Glob.globRuleMatches p l)} w={w} c={bit (Glob.cramRuleMatches p l)}"
     | _, _ => "bad-op"
+  | _ => "bad-op"
+
+def opRxClean (args : List String) : String :=
+  match args with
+  | [es] =>
+    match (es.splitOn ",").mapM utf8Chars with
+    | some l => ",".intercalate (l.map fun e => hex (String.ofList (RegexCleanup.regexClean e)).toUTF8.toList)
+    | none => "bad-op"
   | _ => "bad-op"
 
 /-- cases that only the direct oracle judges (arbitrary regex text, undecodable lines) -/
